@@ -184,14 +184,14 @@ def run_one(ctl: explorer.Ctl, cfg: Dict[str, Any]) -> Dict[str, Any]:
             if entry == "transport":
                 from chuk_mcp.transports.stdio.transport import StdioTransport
 
-                async with StdioTransport(seams.stdio_params()) as tr:
+                async with StdioTransport(_params()) as tr:
                     read, write = await tr.get_streams()
                     info["entered"] = loop.time()
                     await body(read, write)
             elif entry == "reuse-client":
                 from chuk_mcp.transports.stdio.stdio_client import StdioClient
 
-                client = StdioClient(seams.stdio_params())
+                client = StdioClient(_params())
                 async with client:      # an earlier, uneventful connection through the same object
                     await q.settle()
                 info["first_conn_calls"] = [c[0] for c in first_proc.calls]
@@ -199,22 +199,38 @@ def run_one(ctl: explorer.Ctl, cfg: Dict[str, Any]) -> Dict[str, Any]:
                     read, write = client.get_streams()
                     info["entered"] = loop.time()
                     await body(read, write)
+            elif entry in ("transport-after-failed-start", "client-after-failed-start"):
+                # the same object: a first entry that fails because the command cannot be started, then a good one
+                from chuk_mcp.transports.stdio.stdio_client import StdioClient
+                from chuk_mcp.transports.stdio.transport import StdioTransport
+
+                obj = StdioTransport(_params()) if entry.startswith("transport") else StdioClient(_params())
+                spawn_state["fail_next"] = True
+                try:
+                    async with obj:
+                        info["first_entered"] = True
+                except FileNotFoundError:
+                    info["first_failed"] = True
+                async with obj as o:
+                    read, write = (await o.get_streams()) if entry.startswith("transport") else o.get_streams()
+                    info["entered"] = loop.time()
+                    await body(read, write)
             elif entry == "connect_to_server":
                 from chuk_mcp.client.connection import connect_to_server
                 from chuk_mcp.transports.stdio.transport import StdioTransport
 
-                async with connect_to_server(StdioTransport(seams.stdio_params())) as mcp_client:
+                async with connect_to_server(StdioTransport(_params())) as mcp_client:
                     read, write = mcp_client._streams
                     info["entered"] = loop.time()
                     await body(read, write)
             elif entry == "with_initialize":
                 from chuk_mcp.transports.stdio.stdio_client import stdio_client_with_initialize
 
-                async with stdio_client_with_initialize(seams.stdio_params(), timeout=2.0) as (read, write, init):
+                async with stdio_client_with_initialize(_params(), timeout=2.0) as (read, write, init):
                     info["entered"] = loop.time()
                     await body(read, write)
             else:
-                async with stdio_client(seams.stdio_params()) as (read, write):
+                async with stdio_client(_params()) as (read, write):
                     info["entered"] = loop.time()
                     await body(read, write)
 
@@ -222,7 +238,12 @@ def run_one(ctl: explorer.Ctl, cfg: Dict[str, Any]) -> Dict[str, Any]:
 
     first_proc = seams.FakeProcess()
 
+    def _params():
+        return seams.stdio_params(env=cfg.get("env"))
+
     def _factory(cmd, kw):
+        if spawn_state.pop("fail_next", None):
+            return FileNotFoundError(2, "No such file or directory: 'fake-server'")
         if cfg.get("entry") == "reuse-client" and not spawn_state.get("first_done"):
             spawn_state["first_done"] = True
             return first_proc
@@ -341,6 +362,11 @@ def run_one(ctl: explorer.Ctl, cfg: Dict[str, Any]) -> Dict[str, Any]:
     dur = None if t_begin is None else info["t_done"] - t_begin
     obs["exit_duration"] = None if dur is None else round(dur, 6)
 
+    # 0. nothing reads the child's stderr: it must never be a pipe (an unread pipe blocks the child and leaks its descriptor)
+    import subprocess as _sp
+    for sp_ in pp.spawned:
+        if (getattr(sp_, "kwargs", None) or {}).get("stderr") == _sp.PIPE:
+            bad("stderr-piped-but-never-read", f"open_process(stderr=PIPE) with env {cfg.get('env')}")
     # 1. bounded exit
     if dur is None:
         bad("exit-not-reached", "the exit path was never taken")
@@ -496,6 +522,21 @@ def configs_for(tier: str):
                 for during in (0.0, 0.25, 0.5, 1.0 - EPS, 1.0, 1.0 + EPS, 1.5):
                     for o in ("fifo", "lifo"):
                         base.append({"behaviour": b, "exit": e, "moment": m, "order": o, "during": during})
+    # the same object entered again after a start that failed; configured environments that change how stderr is wired
+    for entry in ("transport-after-failed-start", "client-after-failed-start"):
+        for b in ("well", "ignore-term", "ignore-both", "stdout-flood"):
+            for e in EXITS:
+                for m in MOMENTS:
+                    for o in ("fifo", "lifo"):
+                        base.append({"behaviour": b, "exit": e, "moment": m, "order": o, "entry": entry})
+    for env in ({"LOG_LEVEL": "ERROR"}, {"LOG_LEVEL": "critical"}, {"LOGGING_LEVEL": "ERROR"}, {"LOG_LEVEL": "DEBUG"}, {"A": "1"}):
+        for entry in (None, "transport", "with_initialize"):
+            for b in ("well", "ignore-term", "stdout-flood"):
+                for e in ("normal", "scope-cancel"):
+                    c = {"behaviour": b, "exit": e, "moment": "in-flight", "order": "fifo", "env": env}
+                    if entry:
+                        c["entry"] = entry
+                    base.append(c)
     # the body fails with an exception group (its own task group) or with a 'cancel scope' / JSON text the wrappers treat specially
     for entry in (None, "transport", "with_initialize", "reuse-client", "connect_to_server"):
         for b in ("well", "ignore-term", "ignore-both", "stdout-flood", "stdin-blocks", "exit-on-request"):
